@@ -36,7 +36,7 @@ Section Spec.
   Definition cellsum (L : list (list nat)) (S : list nat) (cs : list nat -> nat)
     (Hf : nat -> list (Qc * atom)) (hf : nat -> nat -> list (Qc * atom)) (x : nat) (ps : list nat)
     : list (Qc * atom) :=
-    fsumof L (fun j => Hf (cs j) ++ fsumof S (fun k => hf (cs j) (N x ps j k))).
+    fsumof L (fun j => let c := cs j in Hf c ++ fsumof S (fun k => hf c (N x ps j k))).
 
   (* lnG(r) - lnG(N_j + r)  ;  lnG(N_jk + 1) *)
   Definition k2_H (r : Qc) (nj : nat) := fatom 1 LG r ++ fneg (fatom 1 LG (Qn nj + r)).
